@@ -65,7 +65,10 @@ MANIFEST = {
             "and both DefineCache tables); proved there: the structural table invariant (C01GroundFO.*_partial); the "
             "correctness statement CorrectFO (reported instances have the key of their truth value in Sem.wfm of the "
             "Herbrand instantiation, unreported instances are false) is CHECKED per generated program by executing the Lean "
-            "definitions (Drivers.GroundFOCheck), not proved.",
+            "definitions (Drivers.GroundFOCheck) and PROVED for the model in partial-correctness form for every schedule and "
+            "call history (C01GroundFOFull.C01_groundFO_correct_wfm_partial: whenever the model returns; decidable hypotheses "
+            "SpecOK - arities, constants and variables in range, range restriction, block layout of names, acyclic "
+            "instantiation - decided per generated program by the driver; termination of the model is not proved).",
     "note": "Trusted: Lean kernel + standard axioms; the serialiser of first-order programs (spine.fo_sexp; the Herbrand instantiation itself is Lean's SemFO.ground, proved in C01FO, and cross-checked against the former Python instantiation on every program); Sem as the "
             "meaning of 'distribution semantics'. The engine (engine_stack.py/eval_nodes.py) is not modelled: agreement is "
             "established on the generated programs only. Floats vs exact rationals at 1e-9.",
